@@ -501,9 +501,12 @@ func buildC02(tier string) *core.Plan {
 			{map[string]any{"a": 1}, map[string]any{"a": 1}},
 			{map[string]any{"a": 2}, map[string]any{"a": 3}, map[string]any{"a": 1}},
 			{map[string]any{"a": 1, "k": 0}},
+			{map[string]any{"a": 1, "k": 0}, map[string]any{"a": 1, "k": 9}, map[string]any{"a": 2, "k": 0}},
 		}
 		var fp []c02Doc
-		for _, sel := range []any{map[string]any{"a": 1}, map[string]any{"a": 2}, map[string]any{}} {
+		for _, sel := range []any{map[string]any{"a": 1}, map[string]any{"a": 2}, map[string]any{},
+			// inverted patterns over two keys: NOT(all keys match), so a document matching only one of them is selected
+			map[string]any{"a": 1, "k": 0, "$invert": true}, map[string]any{"a": 1, "k": 9, "$invert": true}, map[string]any{"a": 2, "$invert": true}} {
 			for _, body := range []any{map[string]any{"a": 1}, map[string]any{"a": 2}, map[string]any{"a": 3}, map[string]any{"y": 1}, map[string]any{"y": 2}} {
 				fp = append(fp, c02Doc{HasSel: true, Sel: sel, Body: body})
 			}
